@@ -187,6 +187,9 @@ func (ex *Exec) invoke(fr *Frame, c *ssa.CallCommon, recv Val, args []Val, st *S
 	if ct == nil {
 		panic(unsupported("interface method call %s without an interface contract", key))
 	}
+	if !ct.Trusted {
+		ex.vc.Assumptions["interface contract assumed of every implementation (checked only for the implementations under contract that are called statically): "+key] = true
+	}
 	sig := c.Method.Type().(*types.Signature)
 	names := []string{"self"}
 	for i := 0; i < sig.Params().Len(); i++ {
